@@ -213,7 +213,8 @@ def srt_any_number(c):
                     ("one_cue_per_run_so_far", z3.Implies(n >= 1, z3.And(z3.Length(M) >= 1, OS(M) == DS(P), OE(M) == DE(P)))),
                     ("last_cue_has_the_span_of_the_last_caption", z3.Implies(n >= 1, z3.And(ST[lastm] == ST[X.t[i]], EN[lastm] == EN[X.t[i]])))]
         q = "pycaption.srt:SRTWriter._recreate_lang"
-        c.interp.loop_hooks[(q, 1)] = loop_rule("merge", inv1, locals_={"merged_captions": ("seq", RealCaption)})
+        c.interp.loop_hooks[(q, 1)] = loop_rule("merge", inv1, locals_={"merged_captions": ("seq", RealCaption)},
+                                                fields=[(RealCaption, "layout_info"), (RealCaption, "nodes"), (RealCaption, "style")])
 
         def inv2(S):
             j = S.i
